@@ -60,6 +60,18 @@ func floorFor(rule string) func(cfg Config, prop string) int {
 		if cfg.Vectors {
 			n = c[1]
 		}
-		return n * 3 / 4
+		return half(n)
 	}
+}
+
+// half: site-count floors guard against a rule going vacuous (its anchors renamed away or rewritten into
+// an idiom it does not read), not against one site being removed by a legitimate change — the removal of
+// a site that is *required* is the business of an explicit obligation. Round 7 showed exact floors
+// alarming on correct optimisations (a pool borrow that is no longer needed, a decode that is skipped);
+// since then every floor is half of what was confirmed by hand on the pinned tree, rounded up.
+func half(k int) int {
+	if k <= 1 {
+		return k
+	}
+	return (k + 1) / 2
 }
